@@ -12,4 +12,4 @@ NOT_APPLICABLE = {
 CHECKS = {}   # filled by bin/mkmanifest from engines/<id>.py: MANIFEST
 
 # engines that are finished and reviewed; only these are registered in MANIFEST.json
-ENABLED = ["C01", "C02", "C03", "C04", "C05", "C06", "C07", "C08", "C10", "C11", "C12", "C13", "C14", "C16", "C17", "C18", "C19", "C20"]
+ENABLED = ["C01", "C02", "C03", "C04", "C05", "C06", "C07", "C08", "C09", "C10", "C11", "C12", "C13", "C14", "C16", "C17", "C18", "C19", "C20"]
